@@ -99,6 +99,18 @@ Proof.
   - apply nth_error_None in E. lia.
 Qed.
 
+Lemma rd_ok_exact m b off len i : valid_view m (V b off len) -> i < len ->
+  okR (rd m (V b off len) i) (fun x => x = bat (vtext m (V b off len)) i) (fun r => r = mkR b (off + i) 1).
+Proof.
+  simpl. intros (l & Hl & Hb) Hi.
+  unfold rd, readp, read. simpl. rewrite Hl.
+  destruct (nth_error l (N.to_nat (off + i))) as [x|] eqn:E.
+  - exists x, [mkR b (off + i) 1]. repeat split.
+    + rewrite bat_sub_list by assumption. unfold bat. symmetry. apply nth_error_nth. assumption.
+    + constructor; [reflexivity|constructor].
+  - apply nth_error_None in E. lia.
+Qed.
+
 Section Ops.
 Variable m : mem.
 
@@ -234,7 +246,7 @@ Lemma sub_string_safe v from size (B : range -> Prop) :
   safeR (sub_string v from size)
         (fun s => s = sub_view v from size /\ from <= vlen v /\ size <= vlen v - from) B.
 Proof.
-  unfold sub_string.
+  unfold sub_string, sub_string_with, chk_safe.
   destruct (N.leb_spec from (vlen v)) as [H1|H1]; destruct (N.leb_spec size (vlen v - from)) as [H2|H2]; simpl.
   1: split; [auto|constructor].
   all: constructor.
@@ -242,7 +254,7 @@ Qed.
 Lemma sub_string_ok v from size (B : range -> Prop) : from <= vlen v -> size <= vlen v - from ->
   okR (sub_string v from size) (fun s => s = sub_view v from size) B.
 Proof.
-  intros H1 H2. unfold sub_string.
+  intros H1 H2. unfold sub_string, sub_string_with, chk_safe.
   destruct (N.leb_spec from (vlen v)); [|lia]. destruct (N.leb_spec size (vlen v - from)); [|lia].
   simpl. apply okR_ret. reflexivity.
 Qed.
@@ -250,7 +262,7 @@ Qed.
 Lemma sub_string_stops v from size : ~ (from <= vlen v /\ size <= vlen v - from) ->
   sub_string v from size = (AssertStop a_sub_string, []).
 Proof.
-  intros H. unfold sub_string.
+  intros H. unfold sub_string, sub_string_with, chk_safe.
   destruct (N.leb_spec from (vlen v)); destruct (N.leb_spec size (vlen v - from)); simpl; try reflexivity. lia.
 Qed.
 
